@@ -128,6 +128,18 @@ def shape(a):
     return tuple(a.shape)
 
 
+FLOAT_NDV = 1.17549435e-38
+
+
+def assume_not_ndv(cx, values):
+    """the documented exception of the format: a float exactly equal to the float no-data sentinel reads back as NaN"""
+    for v in values:
+        if isinstance(v, core.Sym):
+            cx.assume(core.Not(core.eq(v, FLOAT_NDV)))
+        elif isinstance(v, float) and v == FLOAT_NDV:
+            raise core.PathInfeasible()
+
+
 def mk_array(X, flat, shp, dtype=None):
     """build an array of the backend from a flat list of scalars"""
     if X is npshim:
